@@ -307,6 +307,47 @@ func c16(c *an.Ctx) {
 		}
 	})
 
+	c.Check("R-POST", "a failed execution never counts as a successful run: once the execution error is known to be non-nil, the subscription / mutation / HTTP compute function returns an error (so the rerunner retries with a cleared cache instead of keeping results computed next to the failure)", 3, func(o *an.O) {
+		var cls []*ssa.Function
+		for _, nm := range []string{"(*conn).handleSubscribe", "(*conn).handleMutate"} {
+			cls = append(cls, rerunnerClosures(c.NeedFunc(gq, nm))...)
+		}
+		if h := p.Func(gq, "(*httpHandler).ServeHTTP"); h != nil {
+			cls = append(cls, rerunnerClosures(h)...)
+		}
+		n := 0
+		for _, cl := range cls {
+			for _, nt := range an.NilTestsWhere(cl, func(v ssa.Value) bool {
+				ld, ok := v.(*ssa.UnOp)
+				if !ok || ld.Op != token.MUL {
+					return false
+				}
+				fa, ok := ld.X.(*ssa.FieldAddr)
+				if !ok || an.FieldName(fa.X.Type(), fa.Field) != "Error" {
+					return false
+				}
+				nn := an.NamedOf(fa.X.Type())
+				return nn != nil && nn.Obj().Name() == "ComputationOutput"
+			}) {
+				n++
+				o.Site(nt.If)
+				r := an.Reach(cl, nt.NonNil.Instrs[0], an.NewBlocker())
+				for _, e := range an.Exits(cl, false) {
+					ret, ok := e.(*ssa.Return)
+					if !ok || len(ret.Results) != 2 || !(r[e] || e.Block() == nt.NonNil) {
+						continue
+					}
+					if isConstNil(an.ResultAt(ret, 1)) {
+						o.FailAt(e, "%s: after the execution failed the compute function can return without an error: the rerunner records a successful run, keeps cache entries computed during the failed execution (a failed expensive field is cached as nil) and later updates carry partial data with no error", an.QualName(cl))
+					}
+				}
+			}
+		}
+		if n < 3 {
+			o.Fail(p.Pos(c.NeedFunc(gq, "(*conn).handleSubscribe").Pos()), "expected the subscription, mutation and HTTP compute functions to test the execution error (found %d tests)", n)
+		}
+	})
+
 	c.Check("R-ERR", "errors produced while executing work units are never dropped (each reaches outputNode.Fail, a return, or a wrapper whose result does)", 12, func(o *an.O) {
 		files := map[string]bool{"batch_executor.go": true}
 		for _, fn := range p.ModuleFuncs(func(rel string) bool { return rel == gq }) {
